@@ -3,7 +3,7 @@ import vlib
 from scale_common import ScaleSpec
 from tree_common import TreeSpec
 
-SPECS = {"scale": (ScaleSpec(['tree']), "harness", "runner"), "tree": (TreeSpec("c03"), "harness", "runner")}
+SPECS = {"scale": (ScaleSpec(['tree', 'tree-gc']), "harness", "runner"), "tree": (TreeSpec("c03"), "harness", "runner")}
 
 PROP_FILES = ["C03"]
 
@@ -17,7 +17,9 @@ def run(ctx):
     vlib.seq_differential(ctx, TreeSpec("c03"), exe, proofs_ok, tag="tree")
     okS, outS, exeS = vlib.build_runner()
     if okS:
-        vlib.seq_differential(ctx, ScaleSpec(['tree']), exeS, proofs_ok, tag="scale")
+        vlib.seq_differential(ctx, ScaleSpec(['tree', 'tree-gc']), exeS, proofs_ok, tag="scale")
+    else:
+        ctx.violation("harness-build", "the harness does not build against the current tree: " + outS[-1500:], {"build_output": outS[-4000:]}, failing_input=False)
     vlib.merge_parts(ctx, "cases = (order mode: compare natural/reversed/coarse, less natural/coarse; Map or Set) x prefill (ascending, descending, sawtooth, random to 0..260 keys, node-capacity boundaries) "
                      "x random Put/Delete/Get/Contains/Len/First/Last/Range/RangeReverse with all 9 bound-kind pairs; compared with the B-tree model (exact), the sorted-list spec and an independent ideal map; "
                      "distinct = hash of ops; non-trivial = >= 8 ops")
